@@ -83,12 +83,6 @@ void harness(void) {
 	c05_build(0);
 	if (!c05_skeleton_ok) { CHECK(0, "C11.H3 instance skeleton is well formed"); return; }
 	c05_reference();
-#ifdef H3_FIRST_SLOT
-	/* CBMC: a list whose FIRST append is conditional has a symbolic capacity ever after (list.c grows by
-	 * reallocation).  The first rule evaluated is always slot H3_FIRST_SLOT; its answer is taken to be one that is
-	 * listed in ruleResults, i.e. not the (KSI_OK, NA, KSI_VER_ERR_NONE) "component present / missing" answer. */
-	ASSUME(!(c05_res[H3_FIRST_SLOT] == KSI_OK && c05_rc[H3_FIRST_SLOT] == KSI_VER_RES_NA && c05_ec[H3_FIRST_SLOT] == KSI_VER_ERR_NONE));
-#endif
 	for (k = 0; k < C05_NSLOTS; k++) h3_set[k] = ND_BOOL(set_tmp);
 	{ int rc = ND(int, fb_rc); ASSUME(rc == KSI_VER_RES_OK || rc == KSI_VER_RES_NA || rc == KSI_VER_RES_FAIL); fb_rc = rc; fb_res = ND(int, fb_res); fb_ec = ND(int, fb_ec); }
 	res = KSI_Policy_create(ctx, &c05_L[0][0], pname0, &p0); ASSUME(res == KSI_OK);
